@@ -2,7 +2,7 @@
    the OCaml driver stays a dumb parser/printer. *)
 From Coq Require Import NArith List Bool String.
 From DBG Require Import Interop.Val Spec.Dna Packed.KmerModel Algo.KmerHist Interop.DispatchExts Interop.DispatchSeq.
-From DBG Require Interop.DispatchBBHash.
+From DBG Require Interop.DispatchBBHash Interop.DispatchGraph.
 Import ListNotations.
 Open Scope N_scope.
 
@@ -121,6 +121,7 @@ Definition prefix2 (op : string) : string := substring 0 2 op.
 (* sub-dispatchers are tried in order; each returns None for an operation it does not know *)
 Definition dispatchers : list (string -> val -> option val) :=
   [ d_kmer; d_spec_kmer; d_exts; run_table generic_spec_ops; d_seq;
+    DispatchGraph.d_graph;
     DispatchBBHash.d_bbhash
   ].
 Fixpoint first_some (ds : list (string -> val -> option val)) (op : string) (v : val) : option val :=
